@@ -89,7 +89,7 @@ type Snap struct {
 	Step     int
 	Now      time.Duration
 	Clusters map[string]*ClusterSnap // by lower-cased cluster name
-	Resolve  map[string]string        // probe host -> cluster name ("" = none)
+	Resolve  map[string]string       // probe host -> cluster name ("" = none)
 }
 
 type ClusterSnap struct {
